@@ -122,7 +122,7 @@ def check(ctx):
         ctx.check(len(clears) >= 1, "clear-exists", m, "%s never clears the dirty flag" % m, where=where(fn))
         for b in clears:
             # dominated by every file call AND by its success continuation (no error block between)
-            ok = all(fn.dominates(cb, b) for cb in call_blocks) and len(call_blocks) >= len(fields)
+            ok = all(cb != b and fn.dominates(cb, b) for cb in call_blocks) and len(call_blocks) >= len(fields)
             ctx.check(ok, "clear-last", m,
                       "%s clears the dirty flag before all three files were flushed successfully: after an error the next flush would skip the remaining files" % m,
                       where=where(fn, b))
